@@ -5,7 +5,7 @@
 //!                 from_base_le / from_base_be, with zero padding; base < 2 must panic.
 //! * `from_base` : arbitrary digit lists (digits of v, 2^BITS-1, 2^BITS, one extra digit, a digit
 //!                 >= base, base 0/1, zero padding) vs Horner in BigUint / the documented error.
-//! * `fmt`       : 6 traits x {plain, #} x {no width, 1, 12, 40, 70, 300} x 7 fill/align/0 variants
+//! * `fmt`       : 6 traits x {plain, #} x {no width, 1, 12, 40, 70, 300} x 11 fill/align/0/sign/precision variants
 //!                 vs the primitive u128 formatter (<= u128::MAX) / BigUint's formatter (above).
 //! * `parse`     : from_str_radix over radix 0..=65 and a few larger.
 //! * `from_str`  : FromStr with the six prefixes and none.
@@ -314,14 +314,19 @@ type Row = (&'static str, usize, String);
 /// runtime widths.
 macro_rules! spec {
     ($v:ident, $out:ident, $ty:literal, $fa:literal, $alt:literal, $zero:literal) => {
-        $out.push((concat!("{:", $fa, $alt, $zero, $ty, "}"), NOW, format!(concat!("{:", $fa, $alt, $zero, $ty, "}"), $v)));
+        spec!($v, $out, $ty, $fa, "", $alt, $zero, "");
+    };
+    ($v:ident, $out:ident, $ty:literal, $fa:literal, $sign:literal, $alt:literal, $zero:literal, $prec:literal) => {
+        $out.push((concat!("{:", $fa, $sign, $alt, $zero, $prec, $ty, "}"), NOW, format!(concat!("{:", $fa, $sign, $alt, $zero, $prec, $ty, "}"), $v)));
         for w in FMT_WIDTHS {
-            $out.push((concat!("{:", $fa, $alt, $zero, "w$", $ty, "}"), w, format!(concat!("{:", $fa, $alt, $zero, "w$", $ty, "}"), $v, w = w)));
+            $out.push((concat!("{:", $fa, $sign, $alt, $zero, "w$", $prec, $ty, "}"), w, format!(concat!("{:", $fa, $sign, $alt, $zero, "w$", $prec, $ty, "}"), $v, w = w)));
         }
     };
 }
 
-/// The whole grid of one trait (type character `$ty`): 7 fill/align/0 variants x {plain, #}.
+/// The whole grid of one trait (type character `$ty`): 7 fill/align/0 variants x {plain, #}, plus
+/// the sign flag `+` (primitive integers print it for unsigned values too) in three positions and
+/// a precision (ignored by integer formatting, but visible to a shortcut keyed on the flags).
 macro_rules! grid {
     ($v:ident, $out:ident, $ty:literal) => {
         grid!(@alt $v, $out, $ty, "");
@@ -335,14 +340,18 @@ macro_rules! grid {
         spec!($v, $out, $ty, "*<", $alt, "");
         spec!($v, $out, $ty, "_^", $alt, "");
         spec!($v, $out, $ty, "", $alt, "0");
+        spec!($v, $out, $ty, "", "+", $alt, "", "");
+        spec!($v, $out, $ty, "_^", "+", $alt, "", "");
+        spec!($v, $out, $ty, "", "+", $alt, "0", "");
+        spec!($v, $out, $ty, "", "", $alt, "", ".3");
     };
 }
 
-/// All rows of trait number `t` for a value behind a trait object, so that the 504 format
+/// All rows of trait number `t` for a value behind a trait object, so that the 792 format
 /// strings are compiled once and not once per width.
 #[inline(never)]
 fn fmt_rows(v: &dyn AllFmt, t: usize) -> Vec<Row> {
-    let mut out: Vec<Row> = Vec::with_capacity(84);
+    let mut out: Vec<Row> = Vec::with_capacity(132);
     match t {
         0 => { grid!(v, out, ""); }
         1 => { grid!(v, out, "?"); }
@@ -450,7 +459,7 @@ fn body_fmt<const B: usize, const L: usize>(c: &Case, rec: &mut Rec) -> R {
         rec.class_if(b.len() >= 2 && b[..b.len() - 1].iter().any(|c| *c < 1 << 62), "fmt:bin_inner_chunk_needs_zero_pad");
         rec.class_if(b.len() >= 2 && b[..b.len() - 1].iter().any(|c| *c < 1 << 60), "fmt:oct_inner_chunk_needs_zero_pad");
     }
-    rec.sample(|| json!({"value": hex(&xb), "display": xb.to_string(), "specs": 84 * 6}));
+    rec.sample(|| json!({"value": hex(&xb), "display": xb.to_string(), "specs": 132 * 6}));
     for (t, name) in TRAITS.iter().enumerate() {
         let got = rec.no_panic(name, catch(|| fmt_rows(&x, t)))?;
         let exp = match small {
@@ -896,7 +905,7 @@ fn self_test() {
         for t in 0..6 {
             let a = fmt_rows(v, t);
             let c = fmt_rows(&b, t);
-            if a.len() != 84 || a != c {
+            if a.len() != 132 || a != c {
                 let bad = a.iter().zip(c.iter()).find(|(x, y)| x != y);
                 harness_error(&format!("BigUint formatting differs from u128 formatting for {v} trait {}: {bad:?}", TRAITS[t]));
             }
@@ -989,7 +998,7 @@ fn self_test() {
 fn main() {
     let spec = PropSpec {
         id: "C09",
-        rule_text: "to_base: (value, base) with bases 2,3,7,10,16,36,64,255,256,2^32,2^63,10^19,2^64-1 + boundary-alphabet random + 2..=70, oracle = repeated BigUint divmod, round trip through from_base_le/be incl. zero padding, base<2 must panic. from_base: digit lists of v, 2^BITS-1, 2^BITS(+k), v*b+d, MAX's digits plus one extra digit, optionally one digit >= base, zero padding, base 0/1; oracle = Horner in BigUint or the documented error (any applicable error when two faults coincide). fmt: 6 traits x {plain,#} x {no width,1,12,40,70,300 via w$} x {default,<,>,^,*<,_^,0} = 504 specs per value vs u128 formatting (<= u128::MAX) / BigUint formatting (above, self-tested against u128); values: biased random, k*C^j+-1 and chunk lists for the chunk bases C in {2^63,2^60,10^19}, fixed specials. parse / from_str: strings rendered from digit lists in the documented alphabets (random case and _ for radix<=36; A-Za-z0-9 {+-} {/,_} for 37..=64), leading zeros, a digit >= radix, an inserted odd character (ASCII neighbours of the alphabet ranges, control, non-ASCII digits and letters), radix 0..=65 and larger; FromStr with the 6 prefixes and none. Non-trivial: >= 2 digits for digit conversion; multi-chunk value (>= 2^60; any non-zero value for BITS <= 60) under the padded grid; parse strings with >= 2 digits and (mixed case | ignorable character | expected error | radix > 36).",
+        rule_text: "to_base: (value, base) with bases 2,3,7,10,16,36,64,255,256,2^32,2^63,10^19,2^64-1 + boundary-alphabet random + 2..=70, oracle = repeated BigUint divmod, round trip through from_base_le/be incl. zero padding, base<2 must panic. from_base: digit lists of v, 2^BITS-1, 2^BITS(+k), v*b+d, MAX's digits plus one extra digit, optionally one digit >= base, zero padding, base 0/1; oracle = Horner in BigUint or the documented error (any applicable error when two faults coincide). fmt: 6 traits x {plain,#} x {no width,1,12,40,70,300 via w$} x {default,<,>,^,*<,_^,0, +, _^+, +0, .3} = 792 specs per value vs u128 formatting (<= u128::MAX) / BigUint formatting (above, self-tested against u128); values: biased random, k*C^j+-1 and chunk lists for the chunk bases C in {2^63,2^60,10^19}, fixed specials. parse / from_str: strings rendered from digit lists in the documented alphabets (random case and _ for radix<=36; A-Za-z0-9 {+-} {/,_} for 37..=64), leading zeros, a digit >= radix, an inserted odd character (ASCII neighbours of the alphabet ranges, control, non-ASCII digits and letters), radix 0..=65 and larger; FromStr with the 6 prefixes and none. Non-trivial: >= 2 digits for digit conversion; multi-chunk value (>= 2^60; any non-zero value for BITS <= 60) under the padded grid; parse strings with >= 2 digits and (mixed case | ignorable character | expected error | radix > 36).",
         assumptions: vec![
             "num-bigint arithmetic and radix conversion are correct (oracle; digit/Horner helpers self-tested against u128)",
             "the primitive u128 formatter is the reference; BigUint's pad_integral formatter is self-tested against it over the whole grid at start-up",
